@@ -34,7 +34,7 @@ Fixpoint w_cues_from (k : nat) (l : list vitem) : list (crend * gcue) :=
   match l with [] => [] | it :: r => (w_crend k it, w_gcue k it) :: w_cues_from (S k) r end.
 Definition w_cues (d : vdoc) : list (crend * gcue) := w_cues_from 0 (vd_items d).
 Definition w_hrend (d : vdoc) (so ro : list str) : hrend :=
-  mkHrend false [] [[]] [[]] (match vd_regions d with [] => [] | _ => [[]] end).
+  mkHrend false [] [[]] [[]] (match ro with [] => [] | _ => [[]] end).
 Definition w_gdoc (d : vdoc) (so ro : list str) : gdoc :=
   mkGdoc (vd_tsmap d) (match style_list d so with [] => None | ss => Some ss end) (region_list d ro).
 
@@ -225,7 +225,7 @@ Proof.
   - unfold hrend_ok, w_hrend, w_gdoc. cbn [hr_trailing hr_blanks0 hr_style_blanks hr_region_blanks gd_style].
     split; [split; [left; reflexivity | split; reflexivity]|]. split; [repeat constructor; exact blank_nil|].
     split; [repeat constructor; exact blank_nil|]. split; [intros _; discriminate|].
-    destruct (vd_regions d); repeat constructor; exact blank_nil.
+    destruct ro; repeat constructor; exact blank_nil.
   - unfold gdoc_ok, w_gdoc. cbn [gd_tsmap gd_style gd_regions]. split; [exact Hts|]. split; [|split].
     + destruct (style_list d so) as [|s0 ss0]; [exact I | split; assumption].
     + unfold region_list. apply Forall_forall. intros rg Hin. apply in_map_iff in Hin. destruct Hin as (k & <- & Hk).
